@@ -45,6 +45,8 @@ def pick_step(rng, env, fermi, names, counter, ops=None):
         if op == "transpose" and x.ndim >= 1:
             perm = list(range(x.ndim))
             rng.shuffle(perm)
+            if rng.random() < 0.25:
+                perm = [q - x.ndim if rng.random() < 0.4 else q for q in perm]
             return {"out": [out], "op": "transpose", "in": [n], "params": {"axes": perm}}
         if op == "conj":
             p = {}
